@@ -54,6 +54,7 @@ func (c14) Rule() string {
 	return "Case kinds by index. (a) idx 0,1 = loader request rule ENUMERATED on hand-built plans (the planner gives every mutation root field its own fetch, so generated operations never yield a mutation request with several root fields): one fetch with 1..3 root fields of Query (idx 0) / Mutation (idx 1) x every subset protected x every decision function over it x nullable / non-null fields x {per-field Authorizer, up-front BatchAuthorizer, both}, run through the real post-processor (coordinate collection) and the real Resolver/Loader (alternating ResolveGraphQLResponse / ArenaResolveGraphQLResponse) with a recording data source. " +
 		"(b) all other indices = generated federation layout (as C01: 2-3 subgraphs, entities with keys, @requires, @provides, @shareable, interfaces/unions over entities, mutations) x a set P of protected coordinates configured as plan.FieldConfiguration.HasAuthorizationRule (all coordinates, or a seeded half) x " + fmt.Sprint(opsPerCase) + " valid operations (fragments on abstract types, aliases, duplicates, @skip/@include, variables; every third a mutation when the layout has them) x decision functions d: P -> {allow,deny}: EVERY function over the protected coordinate families the operation touches when there are <= " + fmt.Sprint(exhaustiveUpTo) + " of them, else all-allow, all-deny and " + fmt.Sprint(seededDecisions) + " generated ones (single touched family, seeded halves/quarters, all-but-one, exactly the entity-fetched fields, exactly the fields fetched only as @requires/@key inputs, only non-null fields, only root fields, only leaves, only composites, only keys) x authorizer modes {per-field resolve.Authorizer, up-front resolve.BatchAuthorizer, and (1 in 4) both}; idx%8 in {3,6}: P is an arbitrary set of OBJECT-type coordinates (every coordinate decided on its own, interface coordinates unprotected, operations never select a field on an interface, so the static and the runtime parent type of every position coincide); idx%8 = 7: @defer queries (every frame is merged by the incremental-delivery rules); else P and d are closed over interface families (Interface.f and every Implementer.f protected and decided alike). Executed by a real ExecutionEngine over in-process semantic subgraphs on a hash-defined universe whose String/ID values embed 'Type.field#' tags. " +
 		"(c) idx%32 = 5: SUBSCRIPTION UPDATES: generated GraphQLSubscription plans (Subscription.ev: Event with leaf fields, an Item object and optionally a list of Items; nullability of every level seeded; aliases) shaped as planner output and run through the real post-processor (trigger appended to the fetch tree, protected coordinates collected), in two shapes - served by the trigger alone, or with an entity-style fetch to a second data source after every event - driven through Resolver.AsyncResolveGraphQLSubscription with a source emitting " + fmt.Sprint(subEvents) + " events and a recording writer; P = all selected coordinates or a seeded half, every decision function when <= " + fmt.Sprint(exhaustiveUpTo) + " protected coordinates (else all-allow, all-deny, every single one, 4 seeded halves) x the three authorizer modes; EVERY update is judged with oracles 1-4 against the reference execution of the selection over that event's data; request rule: with a denied subscription root field the source must not be started (up-front modes), the per-event fetch must not be sent when its root field is denied. " +
+		"Option dimension (idx%4 = 0, generated-layout cases): every up-front-mode execution is repeated with request tracing enabled on the resolve context (engine.WithRequestTraceOptions, trace output not included in the response) and judged by all oracles, in particular the request rule at the subgraph boundary, plus: same data and errors as the untraced execution (fact tracing:on). " +
 		"Ground truth: the coordinate of every response position comes from the provenance of the monolithic reference execution (independent parser/executor), never from the plan; the expected response is the reference execution with denied coordinates failing (error + null + spec null propagation); the root fields of a subgraph request are parsed from the recorded request text (fields of Query/Mutation, or of the entity fragments of _entities). " +
 		"Oracles per execution: (1) no non-null value at a position whose coordinate is denied (initial response and merged deferred payloads); (2) data equals the expected data (null propagation like any other null; fields computed by @requires from a denied input, and fields fetched in the same entity request as such a field, may additionally be null and the value of such a computed field is not compared - counted; with @defer instead: no incremental payload addresses a position that is null or absent in the result delivered so far); (3) every denied position the reference visits has an error with exactly its path, or lies in a region nulled by propagation (or in a deferred fragment completed with errors) that contains a reported denial; (4) no tag of a denied coordinate in any byte written (tags inside an allowed @requires-derived value are counted apart); (5) up-front modes: no recorded subgraph request whose root fields are all denied, no mutation request with any denied root field. Operations whose authorizer-free run differs from the reference are left to C01 (counted). Non-trivial = an execution with >= 1 denied response position or >= 1 suppressed subgraph request; distinct by hash of (layout, P, operation, variables, decision, mode)."
 }
@@ -73,7 +74,7 @@ func (c14) Assumptions() []string {
 }
 
 func (c14) RequiredCounters(string) []string {
-	return []string{"layouts", "operations", "executions_field_mode", "executions_prefetch_mode", "executions_both_mode", "denied_positions_checked", "denial_errors_matched", "denied_positions_swallowed_by_reported_denial", "sentinel_tags_searched", "requests_rule_checked", "mutation_requests_rule_checked", "requests_suppressed", "exhaustive_decision_spaces", "seeded_decision_spaces", "hidden_coordinate_denied_runs", "mutation_executions", "responses_compared", "loader_rule_executions", "loader_rule_mutation_partially_denied", "cases_closed", "cases_concrete", "cases_defer", "cases_subscription", "subscription_updates_judged", "subscription_executions_served_by_trigger_alone", "subscription_executions_with_per_event_fetch", "subscription_triggers_not_started", "subscription_per_event_fetches_suppressed", "deferred_executions", "incremental_frames_observed", "response_positions_checked", "batch_authorizer_calls", "authorizer_object_field_calls"}
+	return []string{"layouts", "operations", "executions_field_mode", "executions_prefetch_mode", "executions_both_mode", "denied_positions_checked", "denial_errors_matched", "denied_positions_swallowed_by_reported_denial", "sentinel_tags_searched", "requests_rule_checked", "mutation_requests_rule_checked", "requests_suppressed", "exhaustive_decision_spaces", "seeded_decision_spaces", "hidden_coordinate_denied_runs", "mutation_executions", "responses_compared", "loader_rule_executions", "loader_rule_mutation_partially_denied", "cases_closed", "cases_concrete", "cases_defer", "cases_subscription", "executions_with_tracing", "tracing_responses_compared_with_untraced", "subscription_updates_judged", "subscription_executions_served_by_trigger_alone", "subscription_executions_with_per_event_fetch", "subscription_triggers_not_started", "subscription_per_event_fetches_suppressed", "deferred_executions", "incremental_frames_observed", "response_positions_checked", "batch_authorizer_calls", "authorizer_object_field_calls"}
 }
 
 // ---------------------------------------------------------------------------------------------
@@ -90,6 +91,7 @@ type caseEnv struct {
 	reqCache map[string]*reqInfo
 	kind     string // case kind
 	violSeen map[string]int
+	tracing  bool // the execution being judged runs with request tracing enabled
 }
 
 // buildFamilies groups coordinates: Interface.f with Implementer.f for every implementer.
@@ -483,14 +485,15 @@ type opCase struct {
 	prov     map[string]ref.Prov // provenance of every field position of A
 	base     *fed.Result         // authorizer-free gateway run
 	// coordinates
-	posCoords    map[string]bool // coordinates (runtime parent type) of response positions
-	staticCoords map[string]bool // coordinates by static parent type of every field of the operation
-	fetchCoords  map[string]bool // coordinates resolved by subgraph requests of the authorizer-free run
-	entityRoots  map[string]bool // root coordinates of _entities requests of the authorizer-free run
-	entityReqs   [][]string      // root coordinates per _entities request of the authorizer-free run
-	hidden       map[string]bool // fetched but never at a response position nor selected statically (@requires / @key inputs)
-	usedFams     []int           // protected families touched by any of the above
-	baseReqs     map[string]bool // subgraph + query of the authorizer-free run
+	posCoords    map[string]bool   // coordinates (runtime parent type) of response positions
+	staticCoords map[string]bool   // coordinates by static parent type of every field of the operation
+	fetchCoords  map[string]bool   // coordinates resolved by subgraph requests of the authorizer-free run
+	entityRoots  map[string]bool   // root coordinates of _entities requests of the authorizer-free run
+	entityReqs   [][]string        // root coordinates per _entities request of the authorizer-free run
+	hidden       map[string]bool   // fetched but never at a response position nor selected statically (@requires / @key inputs)
+	usedFams     []int             // protected families touched by any of the above
+	baseReqs     map[string]bool   // subgraph + query of the authorizer-free run
+	sigs         map[string]string // (decision, mode) → data+errors of the untraced execution
 	// abstractReach: object types reachable as runtime type of a field of the operation whose static
 	// return type is an interface or a union
 	abstractReach map[string]bool
@@ -781,6 +784,15 @@ func (p c14) Run(c *fw.Ctx, idx int) fw.Result {
 				nt := p.judge(&res, env, oc, d, mode, prof, detail)
 				if nt {
 					keys = append(keys, fw.HashKey(l.SuperSDL, pList, oc.text, oc.vars, d.describe(env), mode))
+				}
+				// option dimension (index rule; consumes no randomness): the up-front modes once more with
+				// request tracing enabled on the resolve context
+				if idx%4 == 0 && mode != "field" {
+					env.tracing = true
+					if p.judge(&res, env, oc, d, mode, prof, detail) {
+						keys = append(keys, fw.HashKey(l.SuperSDL, pList, oc.text, oc.vars, d.describe(env), mode, "tracing"))
+					}
+					env.tracing = false
 				}
 			}
 		}
